@@ -71,6 +71,10 @@ def wl_protocol(ctx, config):
         i = rng.randrange(256); muts.append(("r_flip", (r_ ^ (1 << i)) % n, s_, rho, R0))
         i = rng.randrange(256); muts.append(("s_flip", r_, ((s_ ^ (1 << i)) % n) or 1, rho, R0))
         muts.append(("s_negated", r_, n - s_, rho, R0))
+        # r standing in a wrong NUMERIC relation to the committed nonce's x coordinate (x + (p-n), x - (p-n), n - x, x +- 1): a comparison
+        # made in the field instead of among scalars, or one that forgets a range guard, accepts some of these
+        for nm, rv in (("r_plus_p_minus_n", r_ + (p - n)), ("r_minus_p_minus_n", r_ - (p - n)), ("r_negated", n - r_), ("r_plus_1", r_ + 1), ("r_minus_1", r_ - 1)):
+            if 0 < rv < n and rng.random() < 0.6: muts.append((nm, rv, s_, rho, R0))
         for cls, rr, ss, dat, Rop in muts:
             so2 = ctx.call("sig_parse_compact", b32(rr) + b32(ss), config=config); op2 = ctx.call("s2c_opening_parse", ser33(Rop), config=config)
             if so2 is None or op2 is None or so2.ret != 1 or op2.ret != 1: continue
